@@ -138,6 +138,11 @@ func text() string {
 		}
 		return s
 	case 5:
+		if rng.Intn(2) == 0 {
+			// a short mantissa with an exponent around the limits: 1e7 .. 9e12 are amounts, 1e13 is too large, 1e-6 is one droplet
+			return []string{"", "", "+"}[rng.Intn(3)] + digitRun(1+rng.Intn(3)) + []string{"", ".5", ".25", ".000"}[rng.Intn(4)] + []string{"e", "E"}[rng.Intn(2)] +
+				[]string{"", "+", "-"}[rng.Intn(3)] + strconv.Itoa(rng.Intn(15))
+		}
 		sign := []string{"", "", "-", "+"}[rng.Intn(4)]
 		es := []string{"", "-", "+"}[rng.Intn(3)]
 		return sign + digitRun(1+rng.Intn(20)) + []string{"", "." + digitRun(rng.Intn(8))}[rng.Intn(2)] + []string{"e", "E"}[rng.Intn(2)] + es + strconv.Itoa(rng.Intn(30))
